@@ -18,6 +18,10 @@ PINNED by Chg/Pins_Changes.v (reflexivity against what the model was written for
   emitter_absent_sites               every `is_absent(x)` occurrence of emitter.py: (function, argument, context) in source order,
                                      context = "continue" for `if is_absent(x): continue`, else the enclosing expression kind
   emitter_absent_raise               the `isinstance(value, Absent)` guard of emit_value and the statement kind under it
+  emitter_meta_block_src             the `if doc.meta:` statement of emit() (normalised source)
+  emitter_meta_guarded               true iff that statement is `meta_text = emit_meta(...); if meta_text: lines.append(meta_text)`
+                                     (the guard that keeps an all-Absent META from leaving an empty line, /repo 1d4faf6)
+  emitter_comment_src                normalised sources of _emit_leading_comments and emit_comment (bare `//` for an empty comment)
 Fail closed: any shape that is not recognised raises TranslateError.
 """
 import ast
@@ -220,6 +224,18 @@ def generate(src):
     need(isinstance(evb[0], ast.If) and ast.unparse(evb[0].test) == "isinstance(value, Absent)" and not evb[0].orelse,
          "emit_value: first statement is not the `isinstance(value, Absent)` guard")
     absent_raise = [ast.unparse(evb[0].test)] + [type(s).__name__ for s in evb[0].body]
+    # ---- emit(): the META block is appended only when emit_meta returned something ------------------------------
+    em = find_def(emod, "emit")
+    metas = [st for st in _strip_doc(em) if isinstance(st, ast.If) and ast.unparse(st.test) == "doc.meta"]
+    need(len(metas) == 1 and not metas[0].orelse, "emit: expected exactly one `if doc.meta:` statement without else")
+    mb = metas[0].body
+    guarded = (len(mb) == 2 and isinstance(mb[0], ast.Assign) and ast.unparse(mb[0]) == "meta_text = emit_meta(doc.meta, format_options)"
+               and isinstance(mb[1], ast.If) and ast.unparse(mb[1].test) == "meta_text" and not mb[1].orelse
+               and len(mb[1].body) == 1 and ast.unparse(mb[1].body[0]) == "lines.append(meta_text)")
+    unguarded = (len(mb) == 1 and ast.unparse(mb[0]) == "lines.append(emit_meta(doc.meta, format_options))")
+    need(guarded or unguarded, f"emit: META block not understood: {ast.unparse(metas[0])!r}")
+    meta_block_src = ast.unparse(metas[0])
+    comment_src = [_src(find_def(emod, "_emit_leading_comments")), _src(find_def(emod, "emit_comment"))]
     # ---- emission -------------------------------------------------------------------------------------------
     out = [HEADER]
     out.append("(* _is_delete_sentinel: value.get(KEY) == VALUE on a dict *)\n")
@@ -248,4 +264,7 @@ def generate(src):
     out.append("Definition emitter_absent_sites : list (list N * (list N * list N)) := "
                + coq_list([f"({coq_str(f)}, ({coq_str(a)}, {coq_str(c)}))" for f, a, c in sites], "(list N * (list N * list N))") + ".\n")
     out.append(f"Definition emitter_absent_raise : list (list N) := {coq_strlist(absent_raise)}.\n")
+    out.append(f"Definition emitter_meta_block_src : list N := {coq_str(meta_block_src)}.\n")
+    out.append(f"Definition emitter_meta_guarded : bool := {'true' if guarded else 'false'}.\n")
+    out.append(f"Definition emitter_comment_src : list (list N) := {coq_strlist(comment_src)}.\n")
     return {"ChangesGen.v": "".join(out)}
